@@ -1,5 +1,5 @@
 """property -> rules"""
-from . import rules_dd, rules_bounds, rules_limits, rules_tools, rules_conv, rules_handles, rules_access
+from . import rules_dd, rules_bounds, rules_limits, rules_tools, rules_conv, rules_handles, rules_access, rules_coders
 
 CLANG = "clang 14 parser, constant evaluator and CFG builder (via tools/h4x.cc)"
 CDB = "compile flags taken from ninja -t compdb of /repo/_build (or a throw-away cmake configure)"
@@ -95,7 +95,17 @@ PROPS["C13"] = {
 }
 
 PROPS["C14"] = {
-    "rules": [rules_access.rule_F5A, rules_access.rule_F5B],
+    "rules": [rules_access.rule_F5A, rules_access.rule_F5B, rules_coders.rule_coder_flush],
+    "level": "other",
+    "explanation": "TODO",
+    "rule_text": "TODO",
+    "trusted": [CLANG, CDB],
+    "assumptions": [],
+    "level_text": "TODO", "level_note": "TODO", "technique": "TODO",
+}
+
+PROPS["C05"] = {
+    "rules": [rules_coders.rule_comp_header, rules_coders.rule_coder_dispatch, rules_coders.rule_coder_flush, rules_coders.rule_stream_seek],
     "level": "other",
     "explanation": "TODO",
     "rule_text": "TODO",
